@@ -24,8 +24,28 @@ fn gen_doc(rng: &mut Rng) -> (Vec<u8>, &'static str) {
                 "text", "<div>", "</div>", "<script>a<b</script>", "<style>x</style>", "<noframes>n</noframes>", "<textarea>t</textarea>", "<title>T</title>", "<xmp>", "<iframe>", "<noembed>",
                 "<noscript>", "<plaintext>", "<input>", "<hr>", "<keygen>", "<SELECT>", "</SeLeCt>", "<TEMPLATE>", "</template >",
             ];
-            for _ in 0..rng.range(2, 12) {
-                out.extend(rng.pick(ITEMS).as_bytes());
+            if rng.bool() {
+                for _ in 0..rng.range(2, 12) {
+                    out.extend(rng.pick(ITEMS).as_bytes());
+                }
+            } else {
+                // structured: a container, 0-2 templates, a stray tag that the real tree builder
+                // ignores or honours depending on the insertion mode, 0-2 template closers, then a
+                // text-mode-switching element with markup-looking content
+                out.extend(rng.pick(&["<select>", "<select>", "<select>", "<frameset>", "<template>", "<table>", ""]).as_bytes());
+                let k = rng.below(3);
+                for _ in 0..k {
+                    out.extend(b"<template>");
+                }
+                for _ in 0..rng.below(3) {
+                    out.extend(rng.pick(&["</select>", "</template>", "<select>", "<input>", "<keygen>", "<textarea>t</textarea>", "</frameset>", "<option>", "x", "<frameset>", "</table>"]).as_bytes());
+                }
+                for _ in 0..rng.below(k + 2) {
+                    out.extend(b"</template>");
+                }
+                let sw = rng.pick(&["xmp", "style", "iframe", "noembed", "noframes", "script", "title", "textarea", "noscript", "plaintext"]);
+                out.extend(format!("<{sw}><b>x</b></{sw}>").as_bytes());
+                out.extend(rng.pick(&["</select>", "<a>", "", "</frameset><p>"]).as_bytes());
             }
             (out, "guard")
         }
